@@ -284,7 +284,12 @@ class Evaluator:
                 res = VBool(self.truthy(st, res))
             elif isinstance(res, VBool) and not isinstance(v, VBool):
                 v = VBool(t)
-            res = self.ite(st, t, res, v) if is_and else self.ite(st, t, v, res)
+            try:
+                res = self.ite(st, t, res, v) if is_and else self.ite(st, t, v, res)
+            except OutOfSubset:
+                # operands of unrelated kinds (`stack or counter`): only the truth value can matter
+                rb, vb = self.truthy(st, res), t
+                res = VBool(z3.And(vb, rb) if is_and else z3.Or(vb, rb))
         return res
 
     def ev_UnaryOp(self, st, e):
